@@ -92,6 +92,7 @@ func init() {
 	extraAppliers[KRelay] = applyRelay
 	extraAppliers[KConsumerTx] = applyConsumerTx
 	extraAppliers[KRawPacket] = applyRawPacket
+	extraAppliers[KRawAck] = applyRawAck
 	extraAppliers[KProbe] = func(w *World, a *Action, idx int) *StepResult { return &StepResult{} }
 }
 
@@ -891,6 +892,46 @@ func applyRawPacket(w *World, a *Action, idx int) *StepResult {
 	p.Malicious = true
 	w.Label("raw-packet")
 	return &StepResult{}
+}
+
+// applyRawAck lets the consumer chain (arbitrary code from the provider's point of view) take the next
+// validator-set packet off its CCV channel and answer it with an error acknowledgement: it advances its receive
+// sequence and commits the acknowledgement in its own IBC store; an honest relayer then carries the
+// acknowledgement, with a genuine proof, to the provider.
+func applyRawAck(w *World, a *Action, idx int) *StepResult {
+	f := w.F()
+	if f == nil {
+		return &StepResult{Skipped: "no consumers"}
+	}
+	p, ok := f.Paths[a.Chain]
+	if !ok || p.C.Halted {
+		return &StepResult{Skipped: "consumer chain not instantiated"}
+	}
+	C := p.C
+	ctx := C.Ctx()
+	ck := C.CApp.IBCKeeper.ChannelKeeper
+	for _, rec := range pendingRecv(p.P2C) {
+		if rec.Packet.SourcePort != ccvtypes.ProviderPortID {
+			continue
+		}
+		port, ch := rec.Packet.DestinationPort, rec.Packet.DestinationChannel
+		next, found := ck.GetNextSequenceRecv(ctx, port, ch)
+		if !found || next != rec.Packet.Sequence {
+			return &StepResult{Skipped: "next validator-set packet is not the next in sequence on the consumer"}
+		}
+		if rec.SentHeight > w.P.Height {
+			return &StepResult{Skipped: "packet not committed on the provider yet"}
+		}
+		ack := channeltypes.NewErrorAcknowledgement(fmt.Errorf("byzantine consumer refuses the validator set"))
+		bz := ack.Acknowledgement()
+		ck.SetNextSequenceRecv(ctx, port, ch, next+1)
+		ck.SetPacketAcknowledgement(ctx, port, ch, rec.Packet.Sequence, channeltypes.CommitAcknowledgement(bz))
+		rec.Ack, rec.AckHeight, rec.Delivered, rec.RecvHeight, rec.PathID = bz, C.Height+1, true, C.Height+1, p.ID
+		p.Malicious = true
+		w.Label("raw-error-ack")
+		return &StepResult{}
+	}
+	return &StepResult{Skipped: "no undelivered validator-set packet"}
 }
 
 // EnableConsumersLike turns w into an F-world with the same consumer configuration as other.
